@@ -89,7 +89,15 @@ func (w *wl) par(f func(id int, rng *rand.Rand)) {
 var sink atomic.Int64
 var panics atomic.Int64
 
-func use(n int) { sink.Add(int64(n)) }
+// use consumes a result.  It must NOT synchronise the workers with each other: an atomic counter every goroutine
+// adds to after every read is a release/acquire chain between all of them as far as the race detector is
+// concerned (found in round 7: it ordered a write and a read one second apart through third goroutines), so
+// the value is only compared; the calls that produced it (proto.Marshal, …) have effects and are not elided.
+func use(n int) {
+	if n == -1<<40 {
+		sink.Add(1)
+	}
+}
 
 func readMsg(m proto.Message) {
 	if m == nil {
